@@ -87,6 +87,8 @@ type Driver struct {
 	OnReturn func(r *ReadRet)
 	// BigRead decides whether a BigMessage gets read.
 	BigRead func(b *mqtt.BigMessage) bool
+	// BackoffNil lists the non-ErrClosed errors for which ReadBackoff gave nil.
+	BackoffNil []error
 	// Spun tells that the read loop gave up after too many consecutive errors.
 	Spun    bool
 	MaxErrs int
@@ -293,6 +295,9 @@ func (d *Driver) StartReader() {
 				}
 				if d.C.ReadBackoff(err) == nil {
 					d.W.Log(Event{Kind: "monitor", Note: "ReadBackoff returned nil for a non-ErrClosed error: " + err.Error()})
+					d.mu.Lock()
+					d.BackoffNil = append(d.BackoffNil, err)
+					d.mu.Unlock()
 				}
 				errs++
 				if errs > d.MaxErrs {
